@@ -159,6 +159,7 @@ package parquet
 //@ pred srcOrCounter(x) := external(x) || isRC(x)
 
 //@ func (*readCounter).Read
+//@   direct-read
 //@   requires r != nil && external(r.r)
 //@   modifies r, HA(p), srcPos, rfault
 //@   ensures r.r == old(r.r)
@@ -224,7 +225,9 @@ package parquet
 //@   modifies f, HA(f.Defs), HA(f.Reps), heap("parquet.readCounter"), srcPos, rfault
 //@   ensures err == nil ==> dyn(res0) == typeid("*bytes.Buffer") && payload(res0) != 0 && freshsince(cast("*bytes.Buffer", res0))
 //@   ensures[C10] err == nil ==> (rfault ==> old(rfault))
+//@   ensures[C08] err == nil ==> srcPos >= old(srcPos) + pg.Size
 //@ loop (*OptionalField).DoRead#1
+//@   invariant[C08] srcPos == old(srcPos) + nRead
 //@   invariant (rfault ==> old(rfault)) && freshOrNil(out) && freshOrNil(sizes) && sameOrFresh(f.Defs) && sameOrFresh(f.Reps) && f.MaxLevels == old(f.MaxLevels)
 
 //@ func (*OptionalField).Values
